@@ -17,8 +17,10 @@ package main
 // early, or tests the wrong variable is not recognised, and the call is then reported as an unmodelled use of the source.
 
 import (
+	"fmt"
 	"go/token"
 	"go/types"
+	"os"
 	"sync"
 
 	"golang.org/x/tools/go/ssa"
@@ -60,33 +62,33 @@ func fullReadHelper(fn *ssa.Function) *readHelper {
 
 func fullReadHelper0(fn *ssa.Function) *readHelper {
 	if fn == nil || len(fn.Blocks) == 0 || fn.Signature.Recv() != nil {
-		return nil
+		return rhFail(fn, 63)
 	}
 	res := fn.Signature.Results()
 	if res.Len() != 1 || !isErrorType(res.At(0).Type()) {
-		return nil
+		return rhFail(fn, 67)
 	}
 	rd, buf := -1, -1
 	for i, p := range fn.Params {
 		switch {
 		case isIOReader(p.Type()):
 			if rd >= 0 {
-				return nil
+				return rhFail(fn, 74)
 			}
 			rd = i
 		default:
 			if sl, ok := p.Type().Underlying().(*types.Slice); ok && elemSize(sl.Elem()) == 1 {
 				if buf >= 0 {
-					return nil
+					return rhFail(fn, 80)
 				}
 				buf = i
 			} else {
-				return nil
+				return rhFail(fn, 84)
 			}
 		}
 	}
 	if rd < 0 || buf < 0 {
-		return nil
+		return rhFail(fn, 89)
 	}
 	src, b := fn.Params[rd], fn.Params[buf]
 	// (1) uses of the source
@@ -96,15 +98,15 @@ func fullReadHelper0(fn *ssa.Function) *readHelper {
 		case *ssa.DebugRef:
 		case *ssa.Call:
 			if !x.Call.IsInvoke() || x.Call.Value != ssa.Value(src) || x.Call.Method.Name() != "Read" || len(x.Call.Args) != 1 {
-				return nil
+				return rhFail(fn, 99)
 			}
 			reads = append(reads, x)
 		default:
-			return nil
+			return rhFail(fn, 103)
 		}
 	}
 	if len(reads) == 0 {
-		return nil
+		return rhFail(fn, 107)
 	}
 	isLenBuf := func(v ssa.Value) bool {
 		c, ok := v.(*ssa.Call)
@@ -121,11 +123,11 @@ func fullReadHelper0(fn *ssa.Function) *readHelper {
 		case *ssa.DebugRef:
 		case *ssa.Call:
 			if !isLenBuf(x) {
-				return nil
+				return rhFail(fn, 124)
 			}
 		case *ssa.Slice:
 			if x.X != ssa.Value(b) || x.High != nil || x.Max != nil {
-				return nil
+				return rhFail(fn, 128)
 			}
 			for _, r2 := range *x.Referrers() {
 				if _, isDbg := r2.(*ssa.DebugRef); isDbg {
@@ -133,7 +135,7 @@ func fullReadHelper0(fn *ssa.Function) *readHelper {
 				}
 				c, ok := r2.(*ssa.Call)
 				if !ok {
-					return nil
+					return rhFail(fn, 136)
 				}
 				found := false
 				for _, rc := range reads {
@@ -142,12 +144,12 @@ func fullReadHelper0(fn *ssa.Function) *readHelper {
 					}
 				}
 				if !found {
-					return nil
+					return rhFail(fn, 145)
 				}
 			}
 			readSlice[x] = true
 		default:
-			return nil
+			return rhFail(fn, 150)
 		}
 	}
 	// the counter: one phi G with edges {0, G + m}; every Read slices at G and m is its own count
@@ -156,19 +158,19 @@ func fullReadHelper0(fn *ssa.Function) *readHelper {
 	for _, rc := range reads {
 		sl, ok := rc.Call.Args[0].(*ssa.Slice)
 		if !ok || !readSlice[sl] {
-			return nil
+			return rhFail(fn, 159)
 		}
 		var g *ssa.Phi
 		switch lo := sl.Low.(type) {
 		case nil:
-			return nil // buf[0:] inside a loop would overwrite the start; a single Read is not a full read
+			return rhFail(fn, 164)
 		case *ssa.Phi:
 			g = lo
 		default:
-			return nil
+			return rhFail(fn, 168)
 		}
 		if G != nil && g != G {
-			return nil
+			return rhFail(fn, 171)
 		}
 		G = g
 		// the count of this Read
@@ -179,24 +181,26 @@ func fullReadHelper0(fn *ssa.Function) *readHelper {
 			}
 		}
 		if m == nil {
-			return nil
+			return rhFail(fn, 182)
 		}
 		// G + m
 		var sum ssa.Value
 		for _, r2 := range *m.Referrers() {
 			if bo, ok := r2.(*ssa.BinOp); ok && bo.Op == token.ADD && ((bo.X == ssa.Value(G) && bo.Y == m) || (bo.Y == ssa.Value(G) && bo.X == m)) {
 				sum = bo
+			} else if bo, ok := r2.(*ssa.BinOp); ok && isComparison(bo.Op) {
+				// testing the count (n > 0, n == 0: progress bookkeeping) changes nothing
 			} else if _, isDbg := r2.(*ssa.DebugRef); !isDbg {
-				return nil // the count is used for something else
+				return rhFail(fn, 192)
 			}
 		}
 		if sum == nil {
-			return nil
+			return rhFail(fn, 196)
 		}
 		Gnext = append(Gnext, sum)
 	}
 	if G == nil {
-		return nil
+		return rhFail(fn, 201)
 	}
 	for _, e := range G.Edges {
 		if c, ok := e.(*ssa.Const); ok && c.Value != nil && c.Value.ExactString() == "0" {
@@ -209,7 +213,7 @@ func fullReadHelper0(fn *ssa.Function) *readHelper {
 			}
 		}
 		if !ok {
-			return nil
+			return rhFail(fn, 214)
 		}
 	}
 	isCounter := func(v ssa.Value) bool {
@@ -269,6 +273,161 @@ func fullReadHelper0(fn *ssa.Function) *readHelper {
 		}
 		return false
 	}
+	// Path-based justification (for loops whose exit is a conjunction, `for got < len(buf) && err == nil`): every backward
+	// path from the return to the entry or to a back edge - the part of the execution that belongs to the current iteration,
+	// so that every SSA value named on it is the current instance - either carries contradictory branch conditions or
+	// establishes what the return needs.
+	type lit struct {
+		x, y ssa.Value
+		op   token.Token
+	}
+	mkLit := func(iff *ssa.If, truth bool) (lit, bool) {
+		c, ok := iff.Cond.(*ssa.BinOp)
+		if !ok || !isComparison(c.Op) {
+			return lit{}, false
+		}
+		op := c.Op
+		if !truth {
+			op = map[token.Token]token.Token{token.LSS: token.GEQ, token.GEQ: token.LSS, token.GTR: token.LEQ, token.LEQ: token.GTR, token.EQL: token.NEQ, token.NEQ: token.EQL}[op]
+		}
+		return lit{c.X, c.Y, op}, true
+	}
+	sameV := func(a, b ssa.Value) bool {
+		if a == b {
+			return true
+		}
+		if isLenBuf(a) && isLenBuf(b) {
+			return true
+		}
+		ka, ok1 := a.(*ssa.Const)
+		kb, ok2 := b.(*ssa.Const)
+		if ok1 && ok2 {
+			if ka.Value == nil || kb.Value == nil {
+				return ka.Value == nil && kb.Value == nil
+			}
+			return ka.Value.ExactString() == kb.Value.ExactString()
+		}
+		return false
+	}
+	flip := map[token.Token]token.Token{token.LSS: token.GTR, token.GTR: token.LSS, token.LEQ: token.GEQ, token.GEQ: token.LEQ, token.EQL: token.EQL, token.NEQ: token.NEQ}
+	excl := func(a, b token.Token) bool { // can x a y and x b y hold together? (true: no)
+		sets := map[token.Token]int{token.LSS: 1, token.EQL: 2, token.GTR: 4, token.LEQ: 3, token.GEQ: 6, token.NEQ: 5}
+		return sets[a]&sets[b] == 0
+	}
+	contradictory := func(ls []lit) bool {
+		for i := range ls {
+			for j := i + 1; j < len(ls); j++ {
+				a, b := ls[i], ls[j]
+				if sameV(a.x, b.x) && sameV(a.y, b.y) && excl(a.op, b.op) {
+					return true
+				}
+				if sameV(a.x, b.y) && sameV(a.y, b.x) && excl(a.op, flip[b.op]) {
+					return true
+				}
+			}
+		}
+		return false
+	}
+	type bpath struct {
+		lits   []lit
+		blocks []*ssa.BasicBlock // from the return block backwards
+	}
+	var backPaths func(cur *ssa.BasicBlock, acc bpath, out *[]bpath) bool
+	backPaths = func(cur *ssa.BasicBlock, acc bpath, out *[]bpath) bool {
+		acc.blocks = append(append([]*ssa.BasicBlock(nil), acc.blocks...), cur)
+		if len(*out) > 256 || len(acc.blocks) > 64 {
+			return false
+		}
+		if len(cur.Preds) == 0 {
+			*out = append(*out, acc)
+			return true
+		}
+		for _, p := range cur.Preds {
+			if cur.Dominates(p) { // back edge: the path so far is one iteration's worth
+				*out = append(*out, acc)
+				continue
+			}
+			next := bpath{lits: append([]lit(nil), acc.lits...), blocks: acc.blocks}
+			if iff, ok := p.Instrs[len(p.Instrs)-1].(*ssa.If); ok && p.Succs[0] != p.Succs[1] {
+				if l, ok := mkLit(iff, p.Succs[0] == cur); ok {
+					next.lits = append(next.lits, l)
+				}
+			}
+			if !backPaths(p, next, out) {
+				return false
+			}
+		}
+		return true
+	}
+	isNilC := func(w ssa.Value) bool { k, ok := w.(*ssa.Const); return ok && k.Value == nil }
+	staticNonNil := func(v ssa.Value) bool {
+		switch x := v.(type) {
+		case *ssa.UnOp:
+			if g, ok := x.X.(*ssa.Global); ok && x.Op == token.MUL && g.Pkg != nil && g.Pkg.Pkg.Path() == "io" {
+				return true
+			}
+		case *ssa.Call:
+			if cal := x.Call.StaticCallee(); cal != nil && (cal.String() == "errors.New" || cal.String() == "fmt.Errorf") {
+				return true
+			}
+		}
+		return false
+	}
+	byPaths := func(blk *ssa.BasicBlock, rv ssa.Value, wantNil bool) bool {
+		var paths []bpath
+		if !backPaths(blk, bpath{}, &paths) || len(paths) == 0 {
+			return false
+		}
+		for _, pth := range paths {
+			if contradictory(pth.lits) {
+				continue
+			}
+			ok := false
+			if wantNil {
+				for _, l := range pth.lits {
+					x, y, op := l.x, l.y, l.op
+					if isLenBuf(x) {
+						x, y, op = y, x, flip[op]
+					}
+					if isCounter(x) && isLenBuf(y) && (op == token.GEQ || op == token.EQL) {
+						ok = true
+					}
+				}
+			} else {
+				// the value returned on this path: phis resolved along the blocks of the path
+				// (a condition on the phi itself or on the value it takes on this path both speak about what is returned)
+				v := rv
+				cands := []ssa.Value{v}
+				for i := 0; i+1 < len(pth.blocks); i++ {
+					ph, isPhi := v.(*ssa.Phi)
+					if !isPhi || ph.Block() != pth.blocks[i] {
+						continue
+					}
+					for k, pr := range pth.blocks[i].Preds {
+						if pr == pth.blocks[i+1] {
+							v = ph.Edges[k]
+							cands = append(cands, v)
+							break
+						}
+					}
+				}
+				for _, cv := range cands {
+					if staticNonNil(cv) {
+						ok = true
+					}
+					for _, l := range pth.lits {
+						if l.op == token.NEQ && ((l.x == cv && isNilC(l.y)) || (l.y == cv && isNilC(l.x))) {
+							ok = true
+						}
+					}
+				}
+			}
+			if !ok {
+				return false
+			}
+		}
+		return true
+	}
 	nRet := 0
 	for _, blk := range fn.Blocks {
 		for _, in := range blk.Instrs {
@@ -279,21 +438,36 @@ func fullReadHelper0(fn *ssa.Function) *readHelper {
 			nRet++
 			rv := retVals(ret)
 			if len(rv) != 1 {
-				return nil
+				return rhFail(fn, 434)
 			}
 			if c, isC := rv[0].(*ssa.Const); isC && c.Value == nil {
-				if !full(blk) {
-					return nil
+				if !full(blk) && !byPaths(blk, rv[0], true) {
+					return rhFail(fn, 438)
 				}
 				continue
 			}
-			if !nonNil(rv[0], blk) {
-				return nil
+			if !nonNil(rv[0], blk) && !byPaths(blk, rv[0], false) {
+				return rhFail(fn, 443)
 			}
 		}
 	}
 	if nRet == 0 {
-		return nil
+		return rhFail(fn, 448)
 	}
 	return &readHelper{rd: rd, buf: buf, why: "the source is read only as Read(buf[got:]) with got advanced by each count; nil is returned only behind got >= len(buf); other returns carry a non-nil error"}
+}
+
+func isComparison(op token.Token) bool {
+	switch op {
+	case token.LSS, token.LEQ, token.GTR, token.GEQ, token.EQL, token.NEQ:
+		return true
+	}
+	return false
+}
+
+func rhFail(fn *ssa.Function, line int) *readHelper {
+	if fn != nil && os.Getenv("SMGO_RH") != "" {
+		fmt.Printf("readhelper: %s not recognised (readhelper.go:%d)\n", fn.Name(), line)
+	}
+	return nil
 }
